@@ -165,6 +165,14 @@ Theorem c09_vsock_new_shift :
   match vsock_new cci mk_cc c with Some s => Some (shift_vsock da db dc s) | None => None end.
 Proof. exact (@vsock_new_shift). Qed.
 
+Theorem c09_model_runs_shift_ok :
+  forall (da db dc : Z) (CC : Type) (cci : cc_iface CC) (mk_cc : Z -> Z -> CC) (c : vconfig)
+         (ops : list vop) (s : vsock CC),
+  vsock_new cci mk_cc c = Some s -> c09_guard_trace cci s ops = true ->
+  exists s2, vsock_new cci mk_cc (shift_config da db dc c) = Some s2 /\
+             c09_shift_ok da db dc (ftrace cci s ops) (ftrace cci s2 (map (shift_op da db) ops)) = true.
+Proof. exact (@model_runs_shift_ok). Qed.
+
 (* the guard is satisfiable: a scenario whose numbers wrap inside the transfer, with a timeout, a
    fast recovery and both FINs *)
 Theorem c09_guard_satisfiable : ex_guard ex_ops = true /\ ex_reaches ex_ops = true.
@@ -195,5 +203,6 @@ Print Assumptions c09_vstep_shift.
 Print Assumptions c09_ftrace_shift.
 Print Assumptions c09_model_trace_shift_ok.
 Print Assumptions c09_vsock_new_shift.
+Print Assumptions c09_model_runs_shift_ok.
 Print Assumptions c09_guard_satisfiable.
 Print Assumptions c09_shift_outside_guard_refuted.
